@@ -62,6 +62,7 @@ def main():
         if any(l.startswith("TOOL") for l in cr.get("lines", [])):
             kinds.append("(deductive pass: tool failure)")
         rows.append(f"| {sid} | {m.get('property','')} | {', '.join(m.get('files_touched', []))[:60]} | {cr.get('status','not run')} | {', '.join(kinds)} | {'; '.join(cr.get('failed_obligations', []))[:200].replace('|','/')} |")
+    rows = ["".join(ch if (32 <= ord(ch) < 127 or ch in "\n—–…") else "\\x%02x" % (ord(ch) & 0xff) for ch in r) for r in rows]
     open(os.path.join(SEEDED, "RESULTS.md"), "w").write("# Seeded changes vs. registered checks (quick tier, scratch copies of /repo HEAD)\n\n| seed | property | files | result | reported by | failed obligation(s) / scenario |\n|---|---|---|---|---|---|\n" + "\n".join(rows) + "\n")
 
 
